@@ -623,7 +623,7 @@ static Json gen_deflate(Rng &r0, const std::string &focus, int tier)
         p.set("dict", dj);
         Json mem = Json::obj();
         bool recycle = (focus == "C07" || focus == "C05") && rmem.chance(1, 8);
-        mem.set("rel", (int) !rmem.chance(1, 10)).set("place", (int) rmem.below(2)).set("fill", rmem.u64() >> 24).set("dangling", (int) rmem.below(2)).set("recycle", (int) recycle);
+        mem.set("rel", (int) !rmem.chance(1, 10)).set("place", (int) rmem.below(2)).set("fill", rmem.u64() >> 24).set("dangling", (int) rmem.below(2)).set("recycle", (int) recycle).set("regs", rmem.chance(1, 4) ? 0 : rmem.u64() >> 24).set("skip", rmem.chance(1, 2) ? 0 : (int) rmem.below(4096));
         p.set("mem", mem);
         // ---- call history
         int im = (int) rio.below(6), om = starve ? (int) rio.below(3) : (int) rio.below(6);
